@@ -370,6 +370,17 @@ func verify(argv []string) int {
 				reproduced = ok
 			}
 		}
+		if !reproduced {
+			if tpl := findReplayTemplate(*verif, o.Func); tpl != nil && tpl.Scenario {
+				out, ok := runReplay(*verif, *repo, tpl, map[string]interface{}{})
+				rj["replay_template"] = tpl
+				rj["replay_output"] = truncate(out, 6000)
+				rj["replayed"] = true
+				rj["reproduced_on_real_code"] = ok
+				rj["candidate_from"] = "no solver model for this obligation; fixed scenario corpus of the function run on the real code"
+				reproduced = ok
+			}
+		}
 		b, _ := json.MarshalIndent(rj, "", " ")
 		os.WriteFile(rp, b, 0o644)
 		fmt.Printf("FAILED obligation %s status=%s solvers=%v\n", o.Name, r.Status, r.All)
@@ -484,6 +495,9 @@ type replayTemplate struct {
 	Pkg   string `json:"pkg"`   // package directory relative to the repository
 	File  string `json:"file"`  // in-package test file (under /verif/replay), injected with -overlay
 	Run   string `json:"run"`   // go test -run regex
+	// Scenario templates take no witness: they run a fixed corpus of concrete inputs
+	// (one per input class the function's contract distinguishes) on the real code.
+	Scenario bool `json:"scenario,omitempty"`
 }
 
 func findReplayTemplate(verif, fn string) *replayTemplate {
